@@ -5004,7 +5004,7 @@ def handle_sys_close(parser, events, no_cancel=False):
 
 def handle_link(parser, events):
     old_vnode = parser.parse_vnode(events)
-    new_vnode = parser.parse_vnode([e for e in events if e not in old_vnode.ktraces])
+    new_vnode = parser.parse_vnode([e for e in events if all(e is not k for k in old_vnode.ktraces)])
     return BscLink(events, old_vnode.path, new_vnode.path, serialize_result(events[-1]))
 
 
@@ -5382,7 +5382,7 @@ def handle_setregid(parser, events):
 
 def handle_rename(parser, events):
     old_vnode = parser.parse_vnode(events)
-    new_vnode = parser.parse_vnode([e for e in events if e not in old_vnode.ktraces])
+    new_vnode = parser.parse_vnode([e for e in events if all(e is not k for k in old_vnode.ktraces)])
     return BscRename(events, old_vnode.path, new_vnode.path, serialize_result(events[-1]))
 
 
@@ -5505,7 +5505,7 @@ def handle_quotactl(parser, events):
 
 def handle_mount(parser, events):
     src_vnode = parser.parse_vnode(events)
-    dst_vnode = parser.parse_vnode([e for e in events if e not in src_vnode.ktraces])
+    dst_vnode = parser.parse_vnode([e for e in events if all(e is not k for k in src_vnode.ktraces)])
     args = events[0].values
     return BscMount(events, src_vnode.path, dst_vnode.path, args[2], args[3], serialize_result(events[-1]))
 
@@ -5646,7 +5646,7 @@ def handle_getdirentriesattr(parser, events):
 
 def handle_exchangedata(parser, events):
     vnode1 = parser.parse_vnode(events)
-    vnode2 = parser.parse_vnode([e for e in events if e not in vnode1.ktraces])
+    vnode2 = parser.parse_vnode([e for e in events if all(e is not k for k in vnode1.ktraces)])
     args = events[0].values
     return BscExchangedata(events, vnode1.path, vnode2.path, args[2], serialize_result(events[-1]))
 
@@ -6253,7 +6253,7 @@ def handle_getattrlistbulk(parser, events):
 
 def handle_clonefileat(parser, events):
     src = parser.parse_vnode(events)
-    dst = parser.parse_vnode([e for e in events if e not in src.ktraces])
+    dst = parser.parse_vnode([e for e in events if all(e is not k for k in src.ktraces)])
     args = events[0].values
     return BscClonefileat(events, args[0], src.path, args[2], dst.path, serialize_result(events[-1]))
 
